@@ -62,7 +62,7 @@ RULE = ("histories of ask / tell (plus about 10 % out-of-order and ask_dqd / tel
         "changing every iteration; pickle round trips / deep copies of the scheduler between ask and tell and after tell "
         "(the run continues on the restored object); a stratum with two BanditSchedulers alive at once, calls "
         "interleaved; with/without extra fields passed to tell (routed like objective and measures), "
-        "main archive float64 or float32 with evaluation values not representable in float32; strata by what the archive accepts: everything, something, nothing at all "
+        "main archive float64 or float32 with evaluation values not representable in float32; the caller re-using the list object it passed as emitter_pool (reverse / shuffle / rotate / pop / clear / overwrite / extend, straight after construction or between calls: the scheduler keeps the pool it was constructed with); tells that forward a whole evaluation record including a `solution` entry of the right length (tell(**record): the rows routed stay the ones the emitters generated); strata by what the archive accepts: everything, something, nothing at all "
         "(threshold_min above all objectives), nothing for a stretch then something, plus a restart-heavy and a "
         "protocol stratum, and a zeta = 0 stratum (each row acceptable with one probability, per-emitter batch sizes 1-8, so that close "
         "success rates meet very different selection counts and any exploration bonus would flip a comparison). A case is non-trivial when some accepted ask after the first has both emitters to "
@@ -72,6 +72,10 @@ PARTIAL = []
 ASSUMPTIONS = [
     "a scheduler restored by pickle.loads(pickle.dumps(s)) or copy.deepcopy(s) must behave exactly like the original "
     "would have; schedulers alive at the same time must not influence each other",
+    "the pool of a BanditScheduler is the sequence of emitters passed to the constructor, as it was at construction; "
+    "what the caller does with its list object afterwards does not change the pool",
+    "a `solution` entry among the keyword fields of tell (right length) does not replace the solutions handed out by "
+    "ask: archives and emitters receive the rows the emitters generated",
     "constructor options whose value equals the documented default (reselect='terminated', zeta=0.05, "
     "result_archive=None, add_mode='batch'; archive extra_fields None) are omitted from the call; model and oracle use "
     "the documented value",
@@ -269,8 +273,11 @@ def build(case):
         opts["result_archive"] = result
     if case["mode"] != "batch":
         opts["add_mode"] = case["mode"]
-    sched = BanditScheduler(archive, spies, case["num_active"], **opts)
-    return sched, archive, result, spies, log, ctl
+    # the list object handed to the constructor belongs to the caller, who goes on using it (see the `mutate-pool` ops);
+    # the harness keeps its own list of the spies
+    given = list(spies)
+    sched = BanditScheduler(archive, given, case["num_active"], **opts)
+    return sched, archive, result, spies, log, ctl, given
 
 
 # ---------------------------------------------------------------------------
@@ -311,6 +318,32 @@ def gen_with(kind, rng, style="plain"):
                 # with the restored scheduler
                 ops.append({"op": rng.choice(["pickle", "pickle", "deepcopy"])})
     case["ops"] = ops
+    return decorate(case, rng)
+
+
+MUTATIONS = ["reverse", "reverse", "clear", "pop", "rotate", "sort", "duplicate", "overwrite", "extend"]
+
+
+def decorate(case, rng):
+    """What the caller does around the calls, drawn from a derived generator after everything else (so the histories
+    themselves stay as they were):
+    * the caller goes on using the list it passed as `emitter_pool` -- reverses, sorts, rotates, clears, overwrites or
+      extends it -- right after construction or between calls; the scheduler must keep working on the pool it was
+      constructed with;
+    * the caller forwards a complete evaluation record, `scheduler.tell(**record)`, which contains a `solution` entry
+      of the right length (its own post-processed copy of what ask returned); the rows routed must stay the ones the
+      emitters generated."""
+    rr = random.Random(rng.randrange(1 << 30))
+    ops = case["ops"]
+    p_rec = rr.choice([0.0, 0.0, 0.25, 0.6])
+    for op in ops:
+        if op["op"] == "tell" and rr.random() < p_rec:
+            op["record"] = rr.choice(["shifted", "reversed", "zeros", "rounded"])
+    if rr.random() < 0.45:
+        for _ in range(rr.choice([1, 1, 2, 3])):
+            # position 0 = straight after the constructor; otherwise early in the history (what follows is judged)
+            at = 0 if rr.random() < 0.35 else rr.randint(0, max(0, min(len(ops), 8)))
+            ops.insert(at, {"op": "mutate-pool", "how": rr.choice(MUTATIONS), "seed": rr.randrange(1 << 30)})
     return case
 
 
@@ -334,7 +367,7 @@ def gen_zeta0(rng):
         ops.append({"op": "ask", "ns": list(base)})
         ops.append({"op": "tell", "seed": rng.randrange(1 << 30), "restart": [], "hot": p_hot})
     case["ops"] = ops
-    return case
+    return decorate(case, rng)
 
 
 def gen_large_pool(rng):
@@ -353,7 +386,7 @@ def gen_large_pool(rng):
         ops.append({"op": "ask", "ns": [rng.choice([1, 2, 3, 4]) for _ in range(n)]})
         ops.append({"op": "tell", "seed": rng.randrange(1 << 30), "restart": [], "hot": False})
     case["ops"] = ops
-    return case
+    return decorate(case, rng)
 
 
 def mk_op(name, rng, n, sizes, p_restart, kind, t, cold):
@@ -467,7 +500,7 @@ def run_case(case):
 def _run_co(case, drv):
     """One BanditScheduler with its oracle state and its model instance, as a coroutine: it is sent `(op index, op)`
     for every call made on this scheduler and `None` at the end; StopIteration carries `Failure | None`."""
-    sched, archive, result, spies, log, ctl = build(case)
+    sched, archive, result, spies, log, ctl, given = build(case)
     n, k, zeta = case["pool"], case["num_active"], case["zeta"]
     has_counter = [c["counter"] for c in case["emitters"]]
     if True:  # pylint: disable=using-constant-test
@@ -512,6 +545,30 @@ def _run_co(case, drv):
                                    f"than the original ({act0}, {cnt0} vs {[bool(x) for x in sched.active]}, {cnt1})")
                 stat(f"snapshot:{name}:{phase}")
                 continue
+            if name == "mutate-pool":
+                # the caller re-uses the list object it passed to the constructor; nothing is called on the scheduler
+                how = op["how"]
+                if how == "reverse":
+                    given.reverse()
+                elif how == "clear":
+                    given.clear()
+                elif how == "pop":
+                    if given:
+                        given.pop(random.Random(op["seed"]).randrange(len(given)))
+                elif how == "rotate":
+                    if given:
+                        given.append(given.pop(0))
+                elif how == "sort":
+                    random.Random(op["seed"]).shuffle(given)
+                elif how == "duplicate":
+                    if given:
+                        given.insert(0, given[-1])
+                elif how == "overwrite":
+                    given[:] = [None] * len(given)
+                else:
+                    given.extend(given[:2])
+                stat(f"caller-mutates-pool-list:{how}:{phase}")
+                continue
             in_order = name == "ask" and phase != "ask" or name == "tell" and phase == "ask"
             before = [bool(x) for x in sched.active]
             mark = len(log)
@@ -533,9 +590,17 @@ def _run_co(case, drv):
                     if not case.get("extra"):
                         xf = {}
                     ctl["restart_now"] = op["restart"]
+                    rec = {}
+                    if op.get("record"):
+                        # tell(**record): the record carries the caller's own copy of the solutions as `solution`
+                        mine = np.concatenate([pending[3][i] for i in pending[1]], axis=0).reshape(-1, SOLDIM) \
+                            if pending is not None and pending[1] else np.zeros((0, SOLDIM))
+                        rec["solution"] = {"shifted": mine * 0.5 + 100.0, "reversed": mine[::-1].copy(),
+                                           "zeros": np.zeros_like(mine), "rounded": np.round(mine / 3.0, 2)}[op["record"]]
+                        stat(f"tell:record-with-solution-key:{op['record']}")
                     with warnings.catch_warnings():
                         warnings.simplefilter("ignore")
-                        sched.tell(obj, meas, **xf)
+                        sched.tell(obj, meas, **xf, **rec)
                 elif name == "askdqd":
                     sched.ask_dqd()
                 else:
